@@ -84,7 +84,9 @@ class StateNameMixin:
         phi1: Instance of pgmpy.factors.DiscreteFactor
             The factor whose states and variables need to be added.
         """
-        self.state_names.update(phi1.state_names)
+        self.state_names.update(
+            {var: list(names) for var, names in phi1.state_names.items()}
+        )
         self.name_to_no.update(phi1.name_to_no)
         self.no_to_name.update(phi1.no_to_name)
 
